@@ -7,9 +7,12 @@ namespace SteelVerif.C11
 
 def NoNaN (g : Graph) : Prop := noNaNB g = true
 def KeysDistinct (g : Graph) : Prop := keysDistinctB g = true
+/-- lists with the same (storage, index, next) have the same elements -/
+def ListSigOK (g : Graph) : Prop := listSigB g = true
 
 instance (g : Graph) : Decidable (NoNaN g) := inferInstanceAs (Decidable (_ = _))
 instance (g : Graph) : Decidable (KeysDistinct g) := inferInstanceAs (Decidable (_ = _))
+instance (g : Graph) : Decidable (ListSigOK g) := inferInstanceAs (Decidable (_ = _))
 
 /-! ## leaves -/
 
@@ -78,7 +81,7 @@ theorem spec_refl {g : Graph} (hwf : WF g) (hn : NoNaN g) (hk : KeysDistinct g) 
       exact h _ (node_mem g ha)
     cases hnode : g.node a <;> rw [hnode] at hc hleaf <;> simp only [relBody, children] at hc ⊢
     case leaf x => exact leafEqSpec_refl x hleaf
-    case list xs => exact all2_refl xs hc
+    case list xs _ => exact all2_refl xs hc
     case pair x y => simp [hc x (by simp), hc y (by simp)]
     case vec xs => exact all2_refl xs hc
     case mvec xs => exact all2_refl xs hc
@@ -124,7 +127,7 @@ theorem relBody_spec_hash {r r' : Nat → Nat → Bool} (h : ∀ x y, r x y = tr
   cases n <;> cases m <;> simp only [relBody, specCfg, hashCfg, Cfg.fixed, if_true, Bool.true_and] at hb ⊢ <;>
     try exact hb
   case leaf.leaf x y => exact leafEqSpec_hash x y hb
-  case list.list xs ys => exact all2_mono h _ _ hb
+  case list.list xs _ ys _ => exact all2_mono h _ _ hb
   case pair.pair a b c d =>
     simp only [Bool.and_eq_true] at hb ⊢
     exact ⟨h _ _ hb.1, h _ _ hb.2⟩
